@@ -205,6 +205,34 @@ def identity_through_start_client(report, rng, keys):
         relay.close()
 
 
+def challenge_source(report):
+    """a challenge must not be a function of any state an outsider can reconstruct: re-seeding the process-wide
+    pseudo-random generators (random, numpy-style seeding is not available here) must not reproduce challenges, and two
+    authenticators must not produce the same sequence"""
+    import random as _random
+
+    a = make_auth(URLS)
+    seqs = []
+    for _ in range(2):
+        _random.seed(20260929)
+        seqs.append([a.get_challenge("1.2.3.4") for _ in range(8)])
+    if seqs[0] == seqs[1]:
+        report.property_failure("challenges repeat after random.seed(): they are drawn from the process-wide Mersenne Twister, "
+                                "so an observer of earlier challenges can compute the next ones", {"case": "challenge-source"}, None)
+    flat = seqs[0] + seqs[1]
+    if len(set(flat)) != len(flat):
+        report.property_failure("a challenge was issued twice", {"case": "challenge-source"}, None)
+    if any(len(c) != 32 or any(ch not in "0123456789abcdef" for ch in c) for c in flat):
+        report.property_failure("a challenge is not 128 bits of lower-case hex: %r" % flat[:2], {"case": "challenge-source"}, None)
+    # the state of the Mersenne Twister must not move when a challenge is drawn
+    _random.seed(7)
+    st = _random.getstate()
+    a.get_challenge("1.2.3.4")
+    if _random.getstate() != st:
+        report.property_failure("drawing a challenge advances the process-wide Mersenne Twister", {"case": "challenge-source"}, None)
+    report.case(("challenge-source",), nontrivial=True, sample={"case": "challenge-source", "distinct": len(set(flat))})
+
+
 def run(report, tier, seed):
     rng = random.Random(seed)
     drv = common.Driver()
@@ -219,7 +247,7 @@ def run(report, tier, seed):
         "missing, duplicated relay/challenge tags in both orders, value-less tags, bad signature, swapped pubkey, changed "
         "content, non-dict payloads, unknown fields; relay_urls unset (default), one string, a list; plus identity "
         "through web.start_client (replay on another connection, failed AUTH after a good one)")
-    report.assumptions += ["unpredictability of secrets.token_hex(16) is trusted; only distinctness and length are observed",
+    report.assumptions += ["unpredictability of the OS entropy source behind secrets.token_hex(16) is trusted; observed: distinctness, length, and that challenges neither depend on nor advance the process-wide Mersenne Twister",
                            "clock: auth.time replaced by a constant integer"]
     try:
         for urls, eff in ((None, ["ws://localhost:6969"]), ("ws://localhost:6969", ["ws://localhost:6969"]), (URLS, URLS)):
@@ -227,6 +255,7 @@ def run(report, tier, seed):
             for rep in range(1 if tier == "quick" else 20):
                 for name, ev in cases(rng, keys):
                     run_auth_case(report, drv, auth, eff, name, ev, "chal-A")
+        challenge_source(report)
         try:
             identity_through_start_client(report, rng, keys)
         except ImportError:
